@@ -48,6 +48,39 @@ namespace xv
         template <class T, class X>
         static X f(X a, X const& b, long) { a *= b; return a; }
     };
+#define XV_ASSIGN2(NAME, OPEQ)                                        \
+    struct NAME                                                       \
+    {                                                                 \
+        template <class T, class X>                                   \
+        static X f(X a, X const& b, long) { a OPEQ b; return a; }     \
+    };
+    XV_ASSIGN2(op_div_assign, /=)
+    XV_ASSIGN2(op_mod_assign, %=)
+    XV_ASSIGN2(op_and_assign, &=)
+    XV_ASSIGN2(op_or_assign, |=)
+    XV_ASSIGN2(op_xor_assign, ^=)
+    XV_ASSIGN2(op_shl_v_assign, <<=)
+    XV_ASSIGN2(op_shr_v_assign, >>=)
+    struct op_shl_s_assign
+    {
+        template <class T, class X>
+        static X f(X a, long p) { a <<= (int32_t)p; return a; }
+    };
+    struct op_shr_s_assign
+    {
+        template <class T, class X>
+        static X f(X a, long p) { a >>= (int32_t)p; return a; }
+    };
+    struct op_predec
+    {
+        template <class T, class X>
+        static X f(X a, long) { --a; return a; }
+    };
+    struct op_postinc
+    {
+        template <class T, class X>
+        static X f(X a, long) { a++; return a; }
+    };
     struct op_preinc
     {
         template <class T, class X>
@@ -129,6 +162,10 @@ namespace xv
         reg_b<op_ssub>("C01", "ssub", it);
         reg_b<op_avg>("C01", "avg", it);
         reg_b<op_avgr>("C01", "avgr", it);
+        reg_b<op_div_assign>("C01", "div.assign", it);
+        reg_b<op_mod_assign>("C01", "mod.assign", it);
+        reg_u<op_predec>("C01", "decr.preop", it);
+        reg_u<op_postinc>("C01", "incr.postop", it);
         reg_u<op_add_scalar>("C01", "add.scalar", it);
         reg_u<op_mul_scalar>("C01", "mul.scalar", it);
 
@@ -149,6 +186,13 @@ namespace xv
         reg_b<op_shr_v>("C07", "shr.v", it);
         reg_b<op_lshift_v>("C07", "shl.v.fn", it);
         reg_b<op_rshift_v>("C07", "shr.v.fn", it);
+        reg_b<op_and_assign>("C07", "and.assign", it);
+        reg_b<op_or_assign>("C07", "or.assign", it);
+        reg_b<op_xor_assign>("C07", "xor.assign", it);
+        reg_u<op_shl_s_assign>("C07", "shl.s.assign", it);
+        reg_u<op_shr_s_assign>("C07", "shr.s.assign", it);
+        reg_b<op_shl_v_assign>("C07", "shl.v.assign", it);
+        reg_b<op_shr_v_assign>("C07", "shr.v.assign", it);
         reg_u<op_rotl_s>("C07", "rotl.s", it);
         reg_u<op_rotr_s>("C07", "rotr.s", it);
         reg_b<op_rotl_v>("C07", "rotl.v", it);
